@@ -92,18 +92,37 @@ def run(chk):
     rnd.shuffle(selfn)
     shapes += selfn[:40 if quick else 1000]
     rnd.shuffle(shapes)
+    # a FROM clause that is one parenthesised join and nothing else - FROM ( a JOIN b ON .. ) - is parsed differently by some dialect
+    # grammars (redshift: from_clause > bracketed > from_expression): a dozen of those run under every dialect in every run
+    def only_paren(prog):
+        i = next((k for k, e in enumerate(prog) if e["e"] == "main"), None)
+        if i is None or i + 1 >= len(prog) or prog[i + 1]["e"] != "paren" or prog[i + 1]["a"] != "first":
+            return False
+        depth = 0
+        for k in range(i + 1, len(prog)):
+            e = prog[k]["e"]
+            if e in ("paren", "sub", "where", "isub", "having", "on", "ubranch"):
+                depth += 1
+            elif e == "end":
+                depth -= 1
+                if depth == 0:
+                    return k + 2 == len(prog) and prog[k + 1]["e"] == "end"
+        return False
+    whole = [dict(c, all_dialects=True) for c in shapes if only_paren(c["prog"])][:12 if quick else 200]
     allds = [d for d in dialects() if d != "ansi"]
     if quick:
         rnd.shuffle(cases)
-        cases = cases[:450] + shapes[:380]
+        cases = cases[:450] + shapes[:380] + whole
     else:
-        cases += shapes[:4000]
+        cases += shapes[:4000] + whole
     jobs, owner = [], []
     for c in cases:
         # quick: every program under ansi, the sqlparse analyzer and a random third of the other dialects - all dialects every run
-        ds = allds if not quick else rnd.sample(allds, len(allds) // 3)
-        wop = rnd.choice(["in", "in", "exists", "in_with_bracket", "all", "nested_bool"]) if any(e["e"] == "where" for e in c["prog"]) else "in"
+        ds = allds if (not quick or c.get("all_dialects")) else rnd.sample(allds, len(allds) // 3)
+        has_where = any(e["e"] == "where" for e in c["prog"])
         for d in ["ansi"] + ds + ["non-validating"]:
+            # where the WHERE subquery sits in its condition is drawn per (program, dialect): every dialect meets every position
+            wop = rnd.choice(["in", "in", "exists", "in_with_bracket", "all", "nested_bool"]) if has_where else "in"
             jobs.append({"prog": c["prog"], "dialect": d, "check_accept": d != "non-validating", "opts": {"where_op": wop}})
             owner.append(c)
     obs = stmt_variants.run(jobs)
